@@ -48,6 +48,9 @@ func run(b *harness.B) {
 	case 5:
 		runTamper(b)
 		runHandshakeMismatch(b)
+		if b.Batch == 5 {
+			runR2HandshakeRejection(b)
+		}
 	}
 }
 
